@@ -10,6 +10,8 @@ import (
 
 var cmds = map[string]func([]string) error{
 	"c03": props.C03,
+	"c14": props.C14,
+	"c16": props.C16,
 	"c19": props.C19,
 	"c20": props.C20,
 }
